@@ -61,6 +61,9 @@ enum OpSpec {
     PutTtl0(u8, u32),
     Remove(u8),
     Clear,
+    /// DynamicContainer only: merge the index's update section into the sorted section and rewrite the index
+    /// file (key 0: `flush_all_updates`, otherwise `flush_bucket` of that key's bucket); leaves every register as it is
+    Flush(u8),
 }
 
 impl OpSpec {
@@ -72,6 +75,7 @@ impl OpSpec {
             OpSpec::PutTtl0(..) => "put_ttl0",
             OpSpec::Remove(_) => "remove",
             OpSpec::Clear => "clear",
+            OpSpec::Flush(_) => "flush",
         }
     }
     fn to_json(self) -> Value {
@@ -82,6 +86,7 @@ impl OpSpec {
             OpSpec::PutTtl0(k, v) => json!(["put_ttl0", k, v]),
             OpSpec::Remove(k) => json!(["remove", k]),
             OpSpec::Clear => json!(["clear"]),
+            OpSpec::Flush(k) => json!(["flush", k]),
         }
     }
     fn from_json(v: &Value) -> Option<Self> {
@@ -96,6 +101,7 @@ impl OpSpec {
             "put_ttl0" => OpSpec::PutTtl0(k, id),
             "remove" => OpSpec::Remove(k),
             "clear" => OpSpec::Clear,
+            "flush" => OpSpec::Flush(k),
             _ => return None,
         })
     }
@@ -215,6 +221,8 @@ impl Model for RegModel {
                 out.push(n);
             }
             (OpSpec::Clear, _) => out.push([0; NKEYS]),
+            // maintenance of the index representation: no register changes
+            (OpSpec::Flush(_), Res::Unit) => out.push(*s),
             _ => {}
         }
         out
@@ -224,9 +232,22 @@ impl Model for RegModel {
 #[derive(Debug, Clone, Copy, PartialEq, Eq)]
 enum Kind {
     Memory,
-    /// MemoryCache with max_entries = 2 (LRU/LFU/FIFO/Random by value of the second field): eviction is legitimate
+    /// MemoryCache with max_entries = 2 (0..=3) or max_memory_bytes = 64 (4..=7), LRU/LFU/FIFO/Random by the
+    /// field modulo 4: eviction is legitimate
     MemoryEvicting(u8),
+    /// MemoryCache with max_entries = 1 and the Ttl policy: every put runs the "evict expired entries" pass
+    /// (snapshot of the expired keys, then removal); live entries are never evicted by this policy, so the
+    /// model does NOT allow eviction
+    MemoryTtlPolicy,
+    /// MemoryCache::new_with_cleanup (cleanup_interval 1 ms) on a runtime of its own: stress mode only
+    MemoryCleanupTask,
+    /// DiskCache::new_with_background_tasks (cleanup_interval 1 ms) on a runtime of its own: the task purges
+    /// expired entries from the shared index and adjusts the shared counters while the tasks run; stress mode only
+    DiskCleanupTask,
     Dynamic,
+    /// DynamicContainer with an LruManager attached: read and write additionally touch the key in the LRU table
+    /// under its own lock
+    DynamicLru,
     /// MultiLayerCacheImpl (two memory layers, OnHit promotion, L2 pre-seeded): judged weakly
     /// (returns, no error, no torn/foreign value, returned values were written for that key)
     MultiLayer,
@@ -234,6 +255,11 @@ enum Kind {
     DiskSubdirs,
     ProtocolMemory,
     ProtocolDisk,
+    /// ProtocolCache called from inside a tokio runtime (what the async clients do): every operation is shipped
+    /// to a freshly spawned thread that drives the shared background runtime; stress mode only (the spawned
+    /// thread carries no baton handler)
+    ProtocolMemoryInRuntime,
+    ProtocolDiskInRuntime,
 }
 
 impl Kind {
@@ -243,25 +269,36 @@ impl Kind {
             Kind::MemoryEvicting(0) => "MemoryCache(evicting,lru)",
             Kind::MemoryEvicting(1) => "MemoryCache(evicting,lfu)",
             Kind::MemoryEvicting(2) => "MemoryCache(evicting,fifo)",
-            Kind::MemoryEvicting(_) => "MemoryCache(evicting,random)",
+            Kind::MemoryEvicting(3) => "MemoryCache(evicting,random)",
+            Kind::MemoryEvicting(4) => "MemoryCache(evicting-by-bytes,lru)",
+            Kind::MemoryEvicting(5) => "MemoryCache(evicting-by-bytes,lfu)",
+            Kind::MemoryEvicting(6) => "MemoryCache(evicting-by-bytes,fifo)",
+            Kind::MemoryEvicting(_) => "MemoryCache(evicting-by-bytes,random)",
+            Kind::MemoryTtlPolicy => "MemoryCache(ttl-policy)",
+            Kind::MemoryCleanupTask => "MemoryCache(cleanup-task)",
+            Kind::DiskCleanupTask => "DiskCache(cleanup-task)",
             Kind::Dynamic => "DynamicContainer",
+            Kind::DynamicLru => "DynamicContainer(lru)",
             Kind::MultiLayer => "MultiLayerCacheImpl",
             Kind::DiskFlat => "DiskCache",
             Kind::DiskSubdirs => "DiskCache(subdirs)",
             Kind::ProtocolMemory => "ProtocolCache(memory)",
             Kind::ProtocolDisk => "ProtocolCache(disk)",
+            Kind::ProtocolMemoryInRuntime => "ProtocolCache(memory,in-runtime)",
+            Kind::ProtocolDiskInRuntime => "ProtocolCache(disk,in-runtime)",
         }
     }
     /// family used in signatures (one defect = one signature whatever the wrapper)
     fn family(self) -> &'static str {
         match self {
-            Kind::Memory => "MemoryCache",
+            Kind::Memory | Kind::MemoryCleanupTask => "MemoryCache",
             Kind::MemoryEvicting(_) => "MemoryCache(evicting)",
-            Kind::Dynamic => "DynamicContainer",
+            Kind::MemoryTtlPolicy => "MemoryCache(ttl-policy)",
+            Kind::Dynamic | Kind::DynamicLru => "DynamicContainer",
             Kind::MultiLayer => "MultiLayerCacheImpl",
-            Kind::DiskFlat | Kind::DiskSubdirs => "DiskCache",
-            Kind::ProtocolMemory => "ProtocolCache(memory)",
-            Kind::ProtocolDisk => "ProtocolCache(disk)",
+            Kind::DiskFlat | Kind::DiskSubdirs | Kind::DiskCleanupTask => "DiskCache",
+            Kind::ProtocolMemory | Kind::ProtocolMemoryInRuntime => "ProtocolCache(memory)",
+            Kind::ProtocolDisk | Kind::ProtocolDiskInRuntime => "ProtocolCache(disk)",
         }
     }
     fn from_name(s: &str) -> Option<Self> {
@@ -271,12 +308,22 @@ impl Kind {
             Kind::MemoryEvicting(1),
             Kind::MemoryEvicting(2),
             Kind::MemoryEvicting(3),
+            Kind::MemoryEvicting(4),
+            Kind::MemoryEvicting(5),
+            Kind::MemoryEvicting(6),
+            Kind::MemoryEvicting(7),
+            Kind::MemoryTtlPolicy,
+            Kind::MemoryCleanupTask,
+            Kind::DiskCleanupTask,
             Kind::Dynamic,
+            Kind::DynamicLru,
             Kind::MultiLayer,
             Kind::DiskFlat,
             Kind::DiskSubdirs,
             Kind::ProtocolMemory,
             Kind::ProtocolDisk,
+            Kind::ProtocolMemoryInRuntime,
+            Kind::ProtocolDiskInRuntime,
         ]
         .into_iter()
             .find(|k| k.name() == s)
@@ -287,17 +334,30 @@ impl Kind {
 #[async_trait]
 trait Subject: Send + Sync {
     async fn apply(&self, op: OpSpec) -> Res;
-    /// (reported entry count, reported byte usage if the API reports one)
-    async fn books(&self) -> Result<(usize, Option<u64>), String>;
+    /// every figure the API reports about its contents
+    async fn books(&self) -> Result<Books, String>;
     /// false when the subject's counters are judged elsewhere (C05) and not here
     fn judge_books(&self) -> bool {
         true
     }
 }
 
+/// What a subject reports about its contents once everything is quiet.
+#[derive(Debug, Clone, Default)]
+struct Books {
+    /// every reported entry count, by the API that reported it (`size()`, `stats().entry_count`, `len()` ...)
+    counts: Vec<(&'static str, usize)>,
+    /// reported byte usage, if the API reports one
+    bytes: Option<u64>,
+    /// `is_empty()`, if the API has one
+    empty: Option<bool>,
+}
+
 struct AsyncSubject {
     cache: Arc<dyn AsyncCache<SKey>>,
     reports_bytes: bool,
+    /// `put` (the cache's default TTL: 1 h / 24 h) instead of `put_with_ttl(3600 s)` for non-expiring values
+    plain_put: bool,
 }
 
 fn key_name(k: u8) -> String {
@@ -336,6 +396,10 @@ impl Subject for AsyncSubject {
                 Ok(b) => Res::Bool(b),
                 Err(e) => Res::Err(e.to_string()),
             },
+            OpSpec::Put(k, id) if self.plain_put => match self.cache.put(SKey(key_name(k)), Bytes::from(value_bytes(id))).await {
+                Ok(()) => Res::Unit,
+                Err(e) => Res::Err(e.to_string()),
+            },
             OpSpec::Put(k, id) => match self
                 .cache
                 .put_with_ttl(SKey(key_name(k)), Bytes::from(value_bytes(id)), Duration::from_secs(3600))
@@ -360,15 +424,22 @@ impl Subject for AsyncSubject {
                 Ok(()) => Res::Unit,
                 Err(e) => Res::Err(e.to_string()),
             },
+            // caches have no flush: read instead (the generator only emits it for the container)
+            OpSpec::Flush(k) => match self.cache.get(&SKey(key_name(k))).await {
+                Ok(v) => Res::Value(v.map(|b| value_id(&b))),
+                Err(e) => Res::Err(e.to_string()),
+            },
         }
     }
-    async fn books(&self) -> Result<(usize, Option<u64>), String> {
+    async fn books(&self) -> Result<Books, String> {
         let size = self.cache.size().await.map_err(|e| e.to_string())?;
         let stats = self.cache.stats().await.map_err(|e| e.to_string())?;
-        if stats.entry_count != size {
-            // both are "reported entry count"; report the one that disagrees with contents later
-        }
-        Ok((size, self.reports_bytes.then_some(stats.memory_usage_bytes as u64)))
+        let empty = self.cache.is_empty().await.map_err(|e| e.to_string())?;
+        Ok(Books {
+            counts: vec![("size()", size), ("stats().entry_count", stats.entry_count)],
+            bytes: self.reports_bytes.then_some(stats.memory_usage_bytes as u64),
+            empty: Some(empty),
+        })
     }
 }
 
@@ -382,8 +453,18 @@ struct ProtoSubject {
 impl Subject for ProtoSubject {
     async fn apply(&self, op: OpSpec) -> Res {
         match op {
+            // the warm key is read through the second entry point
+            OpSpec::Get(1) => match self.cache.get_bytes(&key_name(1)) {
+                Ok(v) => Res::Value(v.map(|b| value_id(&b))),
+                Err(e) => Res::Err(e.to_string()),
+            },
             OpSpec::Get(k) => match self.cache.get(&key_name(k)) {
                 Ok(v) => Res::Value(v.map(|b| value_id(&b))),
+                Err(e) => Res::Err(e.to_string()),
+            },
+            // odd value ids are stored with the TTL the cache derives from the key (30 min for these keys)
+            OpSpec::Put(k, id) if id % 2 == 1 => match self.cache.store_bytes(&key_name(k), &value_bytes(id)) {
+                Ok(()) => Res::Unit,
                 Err(e) => Res::Err(e.to_string()),
             },
             OpSpec::Put(k, id) => match self.cache.store_with_ttl(&key_name(k), &value_bytes(id), Duration::from_secs(3600)) {
@@ -398,16 +479,28 @@ impl Subject for ProtoSubject {
                 Ok(()) => Res::Unit,
                 Err(e) => Res::Err(e.to_string()),
             },
-            // ProtocolCache has no contains/remove: map to get (keeps the op alphabet uniform)
-            OpSpec::Contains(k) | OpSpec::Remove(k) => match self.cache.get(&key_name(k)) {
+            // the nearest thing to contains: how many of the given keys the cache reports as present
+            OpSpec::Contains(k) => match self.cache.warm_cache(vec![key_name(k)]).await {
+                Ok(n) => Res::Bool(n == 1),
+                Err(e) => Res::Err(e.to_string()),
+            },
+            // ProtocolCache has no remove (and no flush): map to get (keeps the op alphabet uniform)
+            OpSpec::Remove(k) | OpSpec::Flush(k) => match self.cache.get(&key_name(k)) {
                 Ok(v) => Res::Value(v.map(|b| value_id(&b))),
                 Err(e) => Res::Err(e.to_string()),
             },
         }
     }
-    async fn books(&self) -> Result<(usize, Option<u64>), String> {
+    async fn books(&self) -> Result<Books, String> {
         let n = self.cache.len().map_err(|e| e.to_string())?;
-        Ok((n, None))
+        let stats = self.cache.stats().map_err(|e| e.to_string())?;
+        let empty = self.cache.is_empty().map_err(|e| e.to_string())?;
+        Ok(Books {
+            counts: vec![("len()", n), ("stats().entries", stats.entries as usize)],
+            // entry bytes of the backing cache, whichever it is (ProtocolCache reports both in `memory_usage`)
+            bytes: Some(stats.memory_usage),
+            empty: Some(empty),
+        })
     }
 }
 
@@ -459,10 +552,22 @@ impl Subject for DynSubject {
                 Ok(()) => Res::Unit,
                 Err(e) => Res::Err(e.to_string()),
             },
+            OpSpec::Flush(k) => {
+                let r = if k == 0 {
+                    self.c.flush_all_updates()
+                } else {
+                    let ekey = cascette_crypto::EncodingKey::from_bytes(self.keys[k as usize]);
+                    self.c.flush_bucket(cascette_client_storage::index::IndexManager::bucket_for_key(&ekey))
+                };
+                match r {
+                    Ok(()) => Res::Unit,
+                    Err(e) => Res::Err(e.to_string()),
+                }
+            }
         }
     }
-    async fn books(&self) -> Result<(usize, Option<u64>), String> {
-        Ok((self.c.entry_count(), None))
+    async fn books(&self) -> Result<Books, String> {
+        Ok(Books { counts: vec![("entry_count()", self.c.entry_count())], bytes: None, empty: None })
     }
     fn judge_books(&self) -> bool {
         false
@@ -493,25 +598,63 @@ fn build(kind: Kind) -> Result<Built, String> {
         Kind::Memory => {
             let cfg = MemoryCacheConfig::new().with_max_entries(10_000).with_max_memory(1 << 30);
             let c: MemoryCache<SKey> = MemoryCache::new(cfg).map_err(|e| e.to_string())?;
-            Ok(Built { subject: Arc::new(AsyncSubject { cache: Arc::new(c), reports_bytes: true }), _dir: None, sync_only: false, _rt: None })
+            Ok(Built { subject: Arc::new(AsyncSubject { cache: Arc::new(c), reports_bytes: true, plain_put: false }), _dir: None, sync_only: false, _rt: None })
+        }
+        Kind::MemoryTtlPolicy => {
+            use cascette_cache::traits::EvictionPolicy;
+            let cfg = MemoryCacheConfig::new().with_max_entries(1).with_max_memory(1 << 30).with_eviction_policy(EvictionPolicy::Ttl);
+            let c: MemoryCache<SKey> = MemoryCache::new(cfg).map_err(|e| e.to_string())?;
+            Ok(Built { subject: Arc::new(AsyncSubject { cache: Arc::new(c), reports_bytes: true, plain_put: false }), _dir: None, sync_only: false, _rt: None })
+        }
+        Kind::MemoryCleanupTask => {
+            let rt = tokio::runtime::Builder::new_multi_thread().worker_threads(1).enable_all().build().map_err(|e| e.to_string())?;
+            let mut cfg = MemoryCacheConfig::new().with_max_entries(10_000).with_max_memory(1 << 30);
+            cfg.cleanup_interval = Duration::from_millis(1);
+            let c: MemoryCache<SKey> = {
+                let _g = rt.enter();
+                MemoryCache::new_with_cleanup(cfg).map_err(|e| e.to_string())?
+            };
+            Ok(Built { subject: Arc::new(AsyncSubject { cache: Arc::new(c), reports_bytes: true, plain_put: true }), _dir: None, sync_only: false, _rt: Some(rt) })
+        }
+        Kind::DiskCleanupTask => {
+            let dir = scratch_dir()?;
+            let rt = tokio::runtime::Builder::new_multi_thread().worker_threads(1).enable_all().build().map_err(|e| e.to_string())?;
+            let mut cfg = DiskCacheConfig::new(dir.path()).with_max_files(100_000).with_subdirectories(false, 0);
+            cfg.cleanup_interval = Duration::from_millis(1);
+            // the sync task executes the external `sync` command once at start-up; PATH carries a no-op (see main)
+            cfg.sync_interval = Duration::from_secs(3600);
+            let c: DiskCache<SKey> = {
+                let _g = rt.enter();
+                DiskCache::new_with_background_tasks(cfg).map_err(|e| e.to_string())?
+            };
+            Ok(Built { subject: Arc::new(AsyncSubject { cache: Arc::new(c), reports_bytes: true, plain_put: false }), _dir: Some(dir), sync_only: false, _rt: Some(rt) })
         }
         Kind::MemoryEvicting(p) => {
             use cascette_cache::traits::EvictionPolicy;
-            let policy = match p {
+            let policy = match p % 4 {
                 0 => EvictionPolicy::Lru,
                 1 => EvictionPolicy::Lfu,
                 2 => EvictionPolicy::Fifo,
                 _ => EvictionPolicy::Random,
             };
-            let cfg = MemoryCacheConfig::new().with_max_entries(2).with_max_memory(1 << 30).with_eviction_policy(policy);
+            // 0..=3: the entry limit drives eviction; 4..=7: the byte limit does (values are 8-47 bytes, two fit at most)
+            let cfg = if p < 4 {
+                MemoryCacheConfig::new().with_max_entries(2).with_max_memory(1 << 30).with_eviction_policy(policy)
+            } else {
+                MemoryCacheConfig::new().with_max_entries(10_000).with_max_memory(64).with_eviction_policy(policy)
+            };
             let c: MemoryCache<SKey> = MemoryCache::new(cfg).map_err(|e| e.to_string())?;
-            Ok(Built { subject: Arc::new(AsyncSubject { cache: Arc::new(c), reports_bytes: true }), _dir: None, sync_only: false, _rt: None })
+            Ok(Built { subject: Arc::new(AsyncSubject { cache: Arc::new(c), reports_bytes: true, plain_put: true }), _dir: None, sync_only: false, _rt: None })
         }
-        Kind::Dynamic => {
+        Kind::Dynamic | Kind::DynamicLru => {
             let dir = scratch_dir()?;
-            let c = cascette_client_storage::container::DynamicContainer::builder(dir.path().join("data"))
-                .build()
-                .map_err(|e| e.to_string())?;
+            let mut b = cascette_client_storage::container::DynamicContainer::builder(dir.path().join("data"));
+            if kind == Kind::DynamicLru {
+                // capacity far above the three keys: the table never has to give a slot back
+                let lru = cascette_client_storage::lru::LruManager::new(64, dir.path().join("data"));
+                b = b.lru(Arc::new(parking_lot::RwLock::new(lru)));
+            }
+            let c = b.build().map_err(|e| e.to_string())?;
             let rt = tokio::runtime::Builder::new_current_thread().enable_all().build().map_err(|e| e.to_string())?;
             rt.block_on(c.open()).map_err(|e| e.to_string())?;
             let payloads = [dyn_payload(0), dyn_payload(1), dyn_payload(2)];
@@ -533,7 +676,7 @@ fn build(kind: Kind) -> Result<Built, String> {
             for k in 0..2u8 {
                 rt.block_on(c.put_to_layer(SKey(key_name(k)), Bytes::from(value_bytes(9000 + u32::from(k))), 1)).map_err(|e| e.to_string())?;
             }
-            Ok(Built { subject: Arc::new(AsyncSubject { cache: Arc::new(c), reports_bytes: false }), _dir: None, sync_only: false, _rt: Some(rt) })
+            Ok(Built { subject: Arc::new(AsyncSubject { cache: Arc::new(c), reports_bytes: false, plain_put: true }), _dir: None, sync_only: false, _rt: Some(rt) })
         }
         Kind::DiskFlat | Kind::DiskSubdirs => {
             let dir = scratch_dir()?;
@@ -541,10 +684,10 @@ fn build(kind: Kind) -> Result<Built, String> {
                 .with_max_files(100_000)
                 .with_subdirectories(kind == Kind::DiskSubdirs, if kind == Kind::DiskSubdirs { 2 } else { 0 });
             let c: DiskCache<SKey> = DiskCache::new(cfg).map_err(|e| e.to_string())?;
-            Ok(Built { subject: Arc::new(AsyncSubject { cache: Arc::new(c), reports_bytes: true }), _dir: Some(dir), sync_only: false, _rt: None })
+            Ok(Built { subject: Arc::new(AsyncSubject { cache: Arc::new(c), reports_bytes: true, plain_put: kind == Kind::DiskSubdirs }), _dir: Some(dir), sync_only: false, _rt: None })
         }
-        Kind::ProtocolMemory | Kind::ProtocolDisk => {
-            let dir = if kind == Kind::ProtocolDisk { Some(scratch_dir()?) } else { None };
+        Kind::ProtocolMemory | Kind::ProtocolDisk | Kind::ProtocolMemoryInRuntime | Kind::ProtocolDiskInRuntime => {
+            let dir = if matches!(kind, Kind::ProtocolDisk | Kind::ProtocolDiskInRuntime) { Some(scratch_dir()?) } else { None };
             let cfg = cascette_protocol::config::CacheConfig {
                 cache_dir: dir.as_ref().map(|d| d.path().to_path_buf()),
                 memory_max_items: 10_000,
@@ -552,7 +695,9 @@ fn build(kind: Kind) -> Result<Built, String> {
                 ..Default::default()
             };
             let c = cascette_protocol::cache::ProtocolCache::new(&cfg).map_err(|e| e.to_string())?;
-            Ok(Built { subject: Arc::new(ProtoSubject { cache: c }), _dir: dir, sync_only: true, _rt: None })
+            // in-runtime kinds are driven from inside a tokio runtime: ProtocolCache then ships every operation to a new thread
+            let sync_only = matches!(kind, Kind::ProtocolMemory | Kind::ProtocolDisk);
+            Ok(Built { subject: Arc::new(ProtoSubject { cache: c }), _dir: dir, sync_only, _rt: None })
         }
     }
 }
@@ -632,25 +777,35 @@ fn gen_workload(rng: &mut Rng, kind: Kind, max_ops: usize) -> Workload {
         }
         tasks.push(ops);
     }
-    if kind == Kind::Dynamic {
-        // content-addressed store: one fixed value per key, no expiry, no clear
+    if matches!(kind, Kind::Dynamic | Kind::DynamicLru) {
+        // content-addressed store: one fixed value per key, no expiry, no clear (an index flush instead)
         let fix = |op: &mut OpSpec| {
             *op = match *op {
                 OpSpec::Put(k, _) | OpSpec::PutTtl0(k, _) => OpSpec::Put(k, u32::from(k) + 1),
-                OpSpec::Clear => OpSpec::Contains(0),
+                OpSpec::Clear => OpSpec::Flush(0),
                 o => o,
             }
         };
         prepop.iter_mut().for_each(fix);
         for ops in &mut tasks {
             ops.iter_mut().for_each(fix);
+            // one operation in six becomes a flush of the index (all buckets for key 0, the key's bucket otherwise)
+            for op in ops.iter_mut() {
+                if rng.chance(1, 6) {
+                    let k = match *op {
+                        OpSpec::Get(k) | OpSpec::Contains(k) | OpSpec::Put(k, _) | OpSpec::PutTtl0(k, _) | OpSpec::Remove(k) | OpSpec::Flush(k) => k,
+                        OpSpec::Clear => 0,
+                    };
+                    *op = OpSpec::Flush(k);
+                }
+            }
         }
     }
-    if matches!(kind, Kind::ProtocolMemory | Kind::ProtocolDisk) {
-        // ProtocolCache has neither contains nor remove: use get instead
+    if matches!(kind, Kind::ProtocolMemory | Kind::ProtocolDisk | Kind::ProtocolMemoryInRuntime | Kind::ProtocolDiskInRuntime) {
+        // ProtocolCache has no remove: use get instead (contains goes through warm_cache)
         for ops in &mut tasks {
             for op in ops.iter_mut() {
-                if let OpSpec::Contains(k) | OpSpec::Remove(k) = *op {
+                if let OpSpec::Remove(k) = *op {
                     *op = OpSpec::Get(k);
                 }
             }
@@ -663,7 +818,7 @@ struct Execution {
     history: Vec<Rec>,
     final_gets: Vec<Option<u32>>,
     final_errs: Vec<String>,
-    books: Result<(usize, Option<u64>), String>,
+    books: Result<Books, String>,
     judge_books: bool,
     outcome: Option<baton::Outcome>,
 }
@@ -849,6 +1004,7 @@ fn judge(w: &Workload, ex: &Execution) -> (Vec<(String, String)>, bool) {
     // 3. linearizability
     let events: Vec<Event<Done>> = ex.history.iter().map(|r| Event { call: r.call, ret: r.ret, op: r.done.clone() }).collect();
     let had_expiring: bool = ex.history.iter().any(|r| matches!(r.done.spec, OpSpec::PutTtl0(..)));
+    // MemoryTtlPolicy is not "evicting": that policy only ever drops expired entries, which the model leaves open anyway
     let model = RegModel { evicting: matches!(w.kind, Kind::MemoryEvicting(_)) };
     match linz::check(&model, [0; NKEYS], &events, 2_000_000) {
         Verdict::Linearizable => {}
@@ -889,15 +1045,26 @@ fn judge(w: &Workload, ex: &Execution) -> (Vec<(String, String)>, bool) {
     // 4. books at quiescence
     match &ex.books {
         Err(e) => out.push((format!("C11|{fam}|op-failed-without-fault|size-or-stats|{}", err_class(e)), format!("size()/stats() failed: {e}"))),
-        Ok((count, bytes)) => {
+        Ok(Books { counts, bytes, empty }) => {
             if ex.final_errs.is_empty() && ex.judge_books {
                 let real_count = ex.final_gets.iter().filter(|v| v.is_some()).count();
                 let real_bytes: u64 = ex.final_gets.iter().flatten().filter(|&&id| id != TORN).map(|&id| value_bytes(id).len() as u64).sum();
-                if *count != real_count {
-                    out.push((
-                        format!("C11|{fam}|books|entry-count!=contents-after-quiescence|{}", if *count > real_count { "reported-more" } else { "reported-fewer" }),
-                        format!("after all tasks finished size() reports {count} entries but {real_count} keys are retrievable"),
-                    ));
+                // every API that reports an entry count reports the same thing: the real contents
+                for (api, count) in counts {
+                    if *count != real_count {
+                        out.push((
+                            format!("C11|{fam}|books|entry-count!=contents-after-quiescence|{}", if *count > real_count { "reported-more" } else { "reported-fewer" }),
+                            format!("after all tasks finished {api} reports {count} entries but {real_count} keys are retrievable"),
+                        ));
+                    }
+                }
+                if let Some(e) = empty {
+                    if *e != (real_count == 0) {
+                        out.push((
+                            format!("C11|{fam}|books|is_empty!=contents-after-quiescence|{}", if *e { "reports-empty" } else { "reports-non-empty" }),
+                            format!("after all tasks finished is_empty() reports {e} but {real_count} keys are retrievable"),
+                        ));
+                    }
                 }
                 if let Some(b) = bytes {
                     if *b != real_bytes {
@@ -1005,13 +1172,15 @@ fn systematic(ctx: &Ctx, workloads: Vec<Workload>, label: &'static str, max_exec
 }
 
 fn systematic_workloads(kinds: &[Kind], ntasks: usize, alphabet: &[u8]) -> Vec<Workload> {
-    // op codes: 0 get, 1 contains, 2 put, 3 put_ttl0, 4 remove, 5 clear — all on the hot key
+    // op codes: 0 get, 1 contains, 2 put, 3 put_ttl0, 4 remove, 5 clear — all on the hot key;
+    // 6 put on the warm key (a put whose eviction pass meets the hot key's entry)
     let mk = |code: u8, id: u32| match code {
         0 => OpSpec::Get(0),
         1 => OpSpec::Contains(0),
         2 => OpSpec::Put(0, id),
         3 => OpSpec::PutTtl0(0, id),
         4 => OpSpec::Remove(0),
+        6 => OpSpec::Put(1, id),
         _ => OpSpec::Clear,
     };
     let mut out = Vec::new();
@@ -1036,18 +1205,18 @@ fn systematic_workloads(kinds: &[Kind], ntasks: usize, alphabet: &[u8]) -> Vec<W
                     _ => vec![OpSpec::PutTtl0(0, 1)],
                 };
                 let mut tasks: Vec<Vec<OpSpec>> = codes.iter().enumerate().map(|(t, &code)| vec![mk(code, 10 + t as u32)]).collect();
-                if kind == Kind::Dynamic {
+                if matches!(kind, Kind::Dynamic | Kind::DynamicLru) {
                     for ops in &mut tasks {
                         for op in ops.iter_mut() {
                             *op = match *op {
                                 OpSpec::Put(k, _) | OpSpec::PutTtl0(k, _) => OpSpec::Put(k, u32::from(k) + 1),
-                                OpSpec::Clear => OpSpec::Contains(0),
+                                OpSpec::Clear => OpSpec::Flush(0),
                                 o => o,
                             };
                         }
                     }
                 }
-                let prepop_ops = if kind == Kind::Dynamic {
+                let prepop_ops = if matches!(kind, Kind::Dynamic | Kind::DynamicLru) {
                     prepop_ops.into_iter().map(|o| match o { OpSpec::Put(k, _) | OpSpec::PutTtl0(k, _) => OpSpec::Put(k, u32::from(k) + 1), o => o }).collect()
                 } else {
                     prepop_ops
@@ -1059,8 +1228,25 @@ fn systematic_workloads(kinds: &[Kind], ntasks: usize, alphabet: &[u8]) -> Vec<W
     out
 }
 
+/// `DiskCache::new_with_background_tasks` spawns a task that executes the external `sync` command (flushes every
+/// file system of the machine) once at start-up — irrelevant here and arbitrarily slow on a busy host: shadow
+/// it with /bin/true through PATH (same device as in C10/C12).
+fn install_noop_sync() -> Option<tempfile::TempDir> {
+    let dir = tempfile::Builder::new().prefix("vh-c11-bin-").tempdir().ok()?;
+    let truebin = ["/bin/true", "/usr/bin/true"].into_iter().find(|p| std::path::Path::new(p).exists())?;
+    std::os::unix::fs::symlink(truebin, dir.path().join("sync")).ok()?;
+    let old = std::env::var("PATH").unwrap_or_default();
+    // SAFETY: called at the very start of main, before any other thread exists.
+    unsafe { std::env::set_var("PATH", format!("{}:{old}", dir.path().display())) };
+    Some(dir)
+}
+
 fn main() {
+    let fake_bin = install_noop_sync();
     let ctx = Ctx::init("C11", "exploration");
+    if fake_bin.is_none() {
+        ctx.obs("harness.noop_sync_not_installed", 1);
+    }
     ctx.set_rule("executions of 2-3 concurrent tasks x 1-3 (quick) / 1-6 (thorough) operations from {get, contains, put, put_with_ttl(0), remove, clear} on a hot key, a warm key and a disjoint key over MemoryCache, DiskCache (flat/subdirs) and ProtocolCache (memory/disk), every written value unique; baton mode interleaves at the repository's sched_point hooks under a seeded controller, stress mode runs free with injected spins; non-trivial = at least two tasks were interleaved at a hook (baton) or overlapped in logical time (stress) on the same key; distinct by hash of (workload, interleaving trace)");
     ctx.assume("interleavings are explored at the granularity of the sched_point hook sites (baton) plus what 16 cores produce (stress); windows without a hook that the hardware does not hit stay unseen");
     ctx.assume("the linearizability checker is exact for these history sizes (<= 64 operations)");
@@ -1068,6 +1254,7 @@ fn main() {
 
     if let Some(detail) = ctx.replay_detail() {
         replay(&ctx, &detail);
+        drop(fake_bin);
         ctx.finish();
     }
 
@@ -1075,7 +1262,11 @@ fn main() {
     // pre-populations) on the hot key; thorough adds 3 tasks x 1 operation and 2 x 2 for the memory cache
     {
         let all: [u8; 6] = [0, 1, 2, 3, 4, 5];
-        let two = systematic_workloads(&[Kind::Memory, Kind::MemoryEvicting(0), Kind::DiskFlat, Kind::Dynamic], 2, &all);
+        let mut two = systematic_workloads(&[Kind::Memory, Kind::MemoryEvicting(0), Kind::MemoryEvicting(4), Kind::DiskFlat, Kind::Dynamic], 2, &all);
+        // Ttl policy with max_entries = 1: every put runs the expired-entry eviction pass; the alphabet gets a
+        // put on a second key so that one task's eviction pass can meet the other task's fresh entry
+        let with_warm_put: [u8; 7] = [0, 1, 2, 3, 4, 5, 6];
+        two.extend(systematic_workloads(&[Kind::MemoryTtlPolicy], 2, &with_warm_put));
         ctx.obs("systematic.two_tasks.workloads", two.len() as u64);
         systematic(&ctx, two, "two_tasks", 20_000, Duration::from_secs(ctx.pick(40, 120)));
         if !ctx.quick() {
@@ -1107,14 +1298,16 @@ fn main() {
                     }
                     // disk-backed kinds are slower (fsync): give them a smaller share
                     let kind = match rng.below(20) {
-                        0..=6 => Kind::Memory,
-                        7..=9 => Kind::MemoryEvicting(rng.below(4) as u8),
+                        0..=5 => Kind::Memory,
+                        6 => Kind::MemoryTtlPolicy,
+                        7..=9 => Kind::MemoryEvicting(rng.below(8) as u8),
                         10..=12 => Kind::DiskFlat,
                         13 => Kind::DiskSubdirs,
                         14 | 15 => Kind::ProtocolMemory,
                         16 => Kind::ProtocolDisk,
                         17 => Kind::MultiLayer,
-                        _ => Kind::Dynamic,
+                        18 => Kind::Dynamic,
+                        _ => Kind::DynamicLru,
                     };
                     let w = gen_workload(&mut rng, kind, max_ops);
                     let sched_rng = Rng::derive(ctx.seed, mix64(t, i) ^ 0xba70);
@@ -1171,7 +1364,7 @@ fn main() {
                             "trace": o.trace.iter().map(|(t, s)| format!("T{t}:{s}")).collect::<Vec<_>>(),
                             "history": history_json(&ex.history),
                             "final_gets": ex.final_gets,
-                            "books": ex.books.as_ref().ok().map(|(c, b)| json!({"entries": c, "bytes": b})),
+                            "books": ex.books.as_ref().ok().map(|b| json!({"entries": b.counts.iter().map(|(api, n)| json!({"api": api, "count": n})).collect::<Vec<_>>(), "bytes": b.bytes, "is_empty": b.empty})),
                         }));
                     }
                     if ctx.want_sample() && switches >= 2 && i % 50 == 7 {
@@ -1203,17 +1396,25 @@ fn main() {
                         ctx.obs("stress.stopped_by_time_budget", 1);
                         break;
                     }
-                    let kind = match rng.below(20) {
-                        0..=7 => Kind::Memory,
-                        8..=10 => Kind::MemoryEvicting(rng.below(4) as u8),
-                        11..=14 => Kind::DiskFlat,
+                    let kind = match rng.below(24) {
+                        0..=5 => Kind::Memory,
+                        6 => Kind::MemoryTtlPolicy,
+                        7 => Kind::MemoryCleanupTask,
+                        8..=10 => Kind::MemoryEvicting(rng.below(8) as u8),
+                        11..=13 => Kind::DiskFlat,
+                        14 => Kind::DiskCleanupTask,
                         15 => Kind::DiskSubdirs,
                         16 => Kind::ProtocolMemory,
                         17 => Kind::MultiLayer,
+                        18 => Kind::Dynamic,
+                        19 => Kind::DynamicLru,
+                        20 => Kind::ProtocolMemoryInRuntime,
+                        21 => Kind::ProtocolDiskInRuntime,
+                        22 => Kind::DiskCleanupTask,
                         _ => Kind::Dynamic,
                     };
                     let mut w = gen_workload(&mut rng, kind, max_ops.max(4));
-                    if kind == Kind::Dynamic && rng.bool() {
+                    if matches!(kind, Kind::Dynamic | Kind::DynamicLru) && rng.bool() {
                         // concurrent writers of DIFFERENT objects (appends to the same archive file), each
                         // followed by reads of its own and of a neighbour's object
                         w.prepop.clear();
@@ -1255,7 +1456,7 @@ fn main() {
                             "workload": w.to_json(),
                             "history": history_json(&ex.history),
                             "final_gets": ex.final_gets,
-                            "books": ex.books.as_ref().ok().map(|(c, b)| json!({"entries": c, "bytes": b})),
+                            "books": ex.books.as_ref().ok().map(|b| json!({"entries": b.counts.iter().map(|(api, n)| json!({"api": api, "count": n})).collect::<Vec<_>>(), "bytes": b.bytes, "is_empty": b.empty})),
                         }));
                     }
                 }
@@ -1273,6 +1474,7 @@ fn main() {
     }
     let must_reach = [
         "memory.get.expired.before_remove",
+        "memory.evict_expired.before_remove",
         "memory.put.before_insert",
         "disk.write_file.before_rename",
         "disk.put.before_index_update",
@@ -1285,6 +1487,22 @@ fn main() {
             ctx.inconclusive(&format!("hook site {m} never reached"));
         }
     }
+    // sub-workloads the verdict relies on must have run
+    for k in [
+        "op.flush",
+        "baton.executions.MemoryCache(ttl-policy)",
+        "baton.executions.DynamicContainer(lru)",
+        "stress.executions.MemoryCache(cleanup-task)",
+        "stress.executions.DiskCache(cleanup-task)",
+        "stress.executions.ProtocolCache(memory,in-runtime)",
+        "stress.executions.ProtocolCache(disk,in-runtime)",
+        "systematic.two_tasks.workloads.MemoryCache(ttl-policy)",
+    ] {
+        if ctx.get_obs(k) == 0 {
+            ctx.inconclusive(&format!("sub-workload never ran: {k}"));
+        }
+    }
+    drop(fake_bin);
     ctx.finish();
 }
 
